@@ -60,6 +60,8 @@ func c09(r *Report) {
 
 	// inner validators
 	vm := p.Func(dn, "verificationMethodValidator", "Validate")
+	// the owner every entry id is compared with is the id of the document under validation (not e.g. the entry's own controller)
+	r.ArgIsEverywhere("C09.entry-id.owner-is-the-document", Fn(dn, "", "verifyDocumentEntryID"), 0, FieldV("Document", "ID"), 2)
 	r.Gate(Gate{ID: "C09.vm.entry-id", Fn: vm, Effect: SuccessReturn(), ForEach: true, Check: ErrCheck(Fn(dn, "", "verifyDocumentEntryID"))})
 	r.Gate(Gate{ID: "C09.vm.thumbprint", Fn: vm, Effect: SuccessReturn(), ForEach: true, Check: ErrCheck(Fn(dn, "verificationMethodValidator", "verifyThumbprint"))})
 	vt := p.Func(dn, "verificationMethodValidator", "verifyThumbprint")
